@@ -1,0 +1,18 @@
+//go:build verif
+
+package server
+
+import (
+	"os"
+	"strconv"
+	"time"
+)
+
+// verifReportDelay - verification hook H7: delays the master's hand-over of a worker's state
+// report to the bookkeeping goroutine by ZINC_VERIF_REPORT_DELAY_MS milliseconds, so that
+// reports overtake / are overtaken by registrations and exits in orders that are rare otherwise
+func verifReportDelay() {
+	if ms, err := strconv.Atoi(os.Getenv("ZINC_VERIF_REPORT_DELAY_MS")); err == nil && ms > 0 {
+		time.Sleep(time.Duration(ms) * time.Millisecond)
+	}
+}
